@@ -33,6 +33,9 @@ var crashCases = []struct {
 	{name: "map with absurd length", raw: "%9999999999999\r\n"},
 	{name: "set with absurd length", raw: "~9999999999999\r\n"},
 	{name: "blank line", raw: "\r\n"},
+	{name: "BITFIELD GET negative offset", setup: [][]string{{"SET", "str", "abc"}}, cmd: []string{"BITFIELD", "str", "GET", "u8", "-8"}},
+	{name: "BITFIELD_RO GET negative offset on a missing key", cmd: []string{"BITFIELD_RO", "nokey", "GET", "u8", "-8"}},
+	{name: "RESTORE with a length field larger than the payload", cmd: []string{"RESTORE", "r", "0", "\x01\x01\xff\xff\xff\xff" + restoreSum("\x01\x01\xff\xff\xff\xff")}},
 	{name: "COMMAND GETKEYS with too large numkeys", cmd: []string{"COMMAND", "GETKEYS", "LMPOP", "99", "a", "LEFT"}},
 }
 
@@ -85,4 +88,19 @@ func TestDemoC13Crashes(t *testing.T) {
 			t.Logf("%s: survived (%s)", cs.name, strings.Split(strings.SplitN(txt, "REPLY=", 2)[1], "\n")[0])
 		}
 	}
+}
+
+// restoreSum: the trailer RESTORE expects (same rotate/xor checksum as the emulator's DUMP)
+func restoreSum(content string) string {
+	sum := uint64(0)
+	for _, b := range []byte(content) {
+		sum = sum<<10 | sum>>54
+		sum ^= uint64(b)
+	}
+	out := make([]byte, 8)
+	for i := 7; i >= 0; i-- {
+		out[i] = byte(sum)
+		sum >>= 8
+	}
+	return string(out)
 }
